@@ -62,6 +62,15 @@ fn main() {
             }
             println!("REPLAYED behaviours={} mismatches={}", n, bad);
         }
+        "replay-machine" => {
+            rec::silence_panics();
+            rec::IN_OP.store(true, std::sync::atomic::Ordering::Relaxed);
+            let (n, bad, out) = replay::replay_machine(&args[2], 2);
+            for o in out {
+                println!("MISMATCH {}", o);
+            }
+            println!("REPLAYED behaviours={} mismatches={}", n, bad);
+        }
         "probes" => {
             for n in num_bigint::verif_probe::NAMES {
                 println!("{}", n);
